@@ -159,7 +159,7 @@ def run(rep, tier, seed):
         for v, i in mm.forward.items():
             t += [raw(v), raw(i)]
         add(b, MatchMapping, mm, 'mapping', ' '.join(t))
-    npk = 600 if T else 60
+    npk = 1000 if T else 120
     ctxs = []
     for i in range(npk):
         stack, pkt, st, pd = gen_parsed(rnd, STACKS[i % len(STACKS)])
